@@ -33,6 +33,7 @@ PROP = [  # (keyword in commit subject, property, signature of the finding it re
  ("begin_connect / end_connect", "C03", "connect|required-attr|a:stCxn/@idx, a:endCxn/@idx"), ("rejected number_format assignment", "C03", "dlabels/ticklabels.number_format|required-attr|c:numFmt/@formatCode"),
  ("number_format_is_linked created", "C03", "*.number_format_is_linked|required-attr|c:numFmt/@formatCode"), ("non-str to TextFrame.text", "C03", "*.text|missing-child|p:txBody, a:txBody, c:rich"),
  ("non-str hyperlink address", "C03", "hyperlink.address|package-broken"),
+ ("sharing an extension with different default-table", "C01", "default-clash"), ("directory-form package treated a directory", "C16", "dir-form-target-names-directory"),
  ("EMF images", "C15", "emf-stored-as-wmf"), ("TIFF without resolution", "C15", "tiff-without-resolution-sized-at-1dpi"),
 ]
 k = json.load(open(os.path.join(V, "known_findings.json")))
